@@ -876,6 +876,8 @@ EXT3 = {
                 level_note=("; owners part: schedules are the real scheduler's (a replay re-runs the scripts for 20x the rounds); a deadlock is reported structurally (vstat.Watchdog: every goroutine of the "
                             "bubble blocked, at least one on a lock, identical twice 5 s apart), never by a timeout"),
                 rule=" owners: a case is one set of scripts x 40 rounds; non-trivial = >=2 owners and the scripts contain both a Reset and a Remove."),
+    "C19": dict(level_text=(" Further: what a conversion returned belongs to its caller - the TypedValue returned by FromScalar (leaf-list elements included), the slice returned by ToScalar and the "
+                            "index returned by ToStrings (spare capacity included) are overwritten before the same input is converted again, and the second result must equal the first.")),
     "C08": dict(level_text=(" Third structured shape (an eighth of the cases): a POLL client that stops reading and keeps sending 1-300 poll triggers (letting a send pass now and then) against an "
                             "unchanging cache, next to other subscribers: what it is sent after its last trigger is bounded by the distinct matching leaves + the response in flight + one sync marker, "
                             "whatever the number of triggers; or it stays away and the next sleep step judges the send timeout of the POLL subscription.")),
